@@ -579,6 +579,7 @@ def schema_sources():
         'cards': rd(os.path.join(core.REPO, 'tests', 'schemas', 'cards.esdl')),
         'shop': rd(os.path.join(core.VERIF, 'corpus', 'C13', 'shop.esdl')),
         'long': LONG_SDL,
+        'policies': rd(os.path.join(core.VERIF, 'corpus', 'C13', 'policies.esdl')),
     }
 
 
@@ -1300,7 +1301,28 @@ class QGen:
         return 'pack-unpack', f'with {x} := (select {T} {{ pk := (random(), ({p1}, {p2})) }}) ' \
                               f'select ({x} {{ pk }}, {x}.pk.1)'
 
-    KINDS = [('q_pack', 8), ('q_select', 30), ('q_path', 10), ('q_tuple', 8), ('q_agg', 6), ('q_group', 6),
+    def q_global(self):
+        """queries whose only (or first) reference to a rewritten type is through a computed global"""
+        gs = [(g, gd) for g, gd in self.globals.items() if gd['computed']]
+        if not gs:
+            return self.q_select()
+        g, gd = self.ch(gs)
+        T = self.ch(self.concrete)
+        gt = gd['type'].replace('default::', '')
+        k = self.rng.random()
+        if gd['is_obj'] and gt in self.types:
+            if k < 0.4:
+                return 'global-only', f'select (global {g}) {self.shape(gt, 1)}'
+            if k < 0.7:
+                return 'global-first', f'select ((global {g}) {self.shape(gt, 0)}, {T} {self.shape(T, 0)})'
+            return 'global-last', f'select ({T} {self.shape(T, 1)}, count(global {g}))'
+        if k < 0.4:
+            return 'global-only', f'select global {g}'
+        if k < 0.7:
+            return 'global-first', f'select (global {g}, count({self.obj_set(T, 1)}))'
+        return 'global-last', f'select {T} {self.shape(T, 1)} filter exists (global {g})'
+
+    KINDS = [('q_global', 5), ('q_pack', 8), ('q_select', 30), ('q_path', 10), ('q_tuple', 8), ('q_agg', 6), ('q_group', 6),
              ('q_for', 8), ('q_insert', 12), ('q_update', 8), ('q_delete', 5), ('q_setop', 4),
              ('q_misc', 8)]
 
@@ -1500,6 +1522,44 @@ with c := (select Customer { name, t := (random(), (.tier, .name)) }) select (c 
 '''
 
 
+# dependent type-rewrite CTEs (access policies, computed globals; corpus/C13/policies.esdl): queries that
+# mention ONLY the outer type / global, so that the inner rewritten type is first met while the outer
+# rewrite's body is compiled, and queries that mention both in either order
+FIXED['policies'] = '''
+select Doc { title }
+select Audit { what }
+select Memo { body }
+select Ledger { entry }
+select Board { title, pinned: { title } }
+select global n_people
+select (global top_person) { name }
+select global n_visible
+select (global my_team) { name, members: { name } }
+select (global visible_docs) { title, owner: { name } }
+select (count(Person), global n_people)
+select (global n_people, count(Person))
+select (Doc, global visible_docs)
+select (global n_visible, count(Doc))
+select Plain { val, board: { title } }
+select Person { name } filter .rank in global ranks
+select count(Board) + global n_visible
+insert Ledger { entry := <str>$e }
+update Board filter .title = 'a' set { pinned += (global visible_docs) }
+delete Audit filter .what = 'x'
+select (global top_person).boss { name }
+with t := global my_team select (t.name, count(Person), global n_people)
+select Note { text, doc: { title } } filter .doc in global visible_docs
+select sys::Database { name }
+select (global n_people, count(sys::Database))
+select Folder { label, notes: { text, doc: { title, team: { name, lead: { name } } } } }
+select Tag { label, docs: { title } } filter exists (global top_person)
+select (Person, Doc)
+select (Doc, Person)
+for d in (global visible_docs) union (d.title, global n_people)
+select (group Doc by .owner) { k := .key.owner.name, n := count(.elements), m := global n_visible }
+'''
+
+
 def load_regressions():
     path = os.path.join(core.VERIF, 'corpus', 'C13', 'regressions.json')
     if not os.path.exists(path):
@@ -1523,7 +1583,7 @@ def gen_population(rng, descs, n_random):
     n_fixed = len(out)
     while len(out) < n_random + n_fixed and tries < n_random * 5:
         tries += 1
-        s = rng.choice([x for x in snames if x != 'long'] * 4 + ['long'])
+        s = rng.choice([x for x in snames if x != 'long'] * 4 + ['long', 'policies', 'policies'])
         try:
             kind, text = gens[s].gen()
         except (IndexError, ValueError):
@@ -1629,20 +1689,46 @@ def canon_tree(node):
 
 class Capture:
     """Observes the real `edb.pgsql.compiler.compile_ir_to_sql_tree` from outside (wrapping the
-    module attribute the server compiler calls): the last IR statement and its CompileResult."""
+    module attribute the server compiler calls): the IR statement, its CompileResult, and the names
+    of the hoisted type-rewrite CTEs (`ctx.ordered_type_ctes`, seen by wrapping `clauses.insert_ctes`)."""
 
     def __init__(self):
         from edb.pgsql import compiler as pgc
+        from edb.pgsql.compiler import clauses
         self.pgc = pgc
         self.orig = pgc.compile_ir_to_sql_tree
         self.calls = []
+        self._type_ctes = None
+        orig_insert = clauses.insert_ctes
+
+        def insert_ctes(stmt, ctx):
+            self._type_ctes = [c.name for c in ctx.ordered_type_ctes]
+            return orig_insert(stmt, ctx)
+
+        clauses.insert_ctes = insert_ctes
 
         def wrapper(ir_expr, **kw):
+            self._type_ctes = None
             res = self.orig(ir_expr, **kw)
-            self.calls.append((ir_expr, res))
+            self.calls.append((ir_expr, res, self._type_ctes or []))
             return res
 
         pgc.compile_ir_to_sql_tree = wrapper
+
+
+def rewrite_cte_dependencies(tree, type_cte_names):
+    """(number of type-rewrite CTEs in the top-level WITH, [(A, B)] with A's body selecting from B)"""
+    from edb.common.ast import visitor
+    from edb.pgsql import ast as pgast
+    names = set(type_cte_names)
+    ctes = [c for c in (getattr(tree, 'ctes', None) or []) if c.name in names]
+    deps = []
+    for c in ctes:
+        for rv in visitor.find_children(c.query, pgast.RelRangeVar):
+            if isinstance(rv.relation, pgast.CommonTableExpr) and rv.relation.name in names \
+                    and rv.relation.name != c.name and (c.name, rv.relation.name) not in deps:
+                deps.append((c.name, rv.relation.name))
+    return len(ctes), deps
 
 
 def describe_units(grp):
@@ -1740,7 +1826,7 @@ def compile_one(envm, cap: Capture, codegen, schema, text, tree_path=None):
                     server=units)
     # a script compiles one SQL tree per statement; QueryUnits correspond to them in order
     recs = []
-    for k, (ir, res) in enumerate(cap.calls):
+    for k, (ir, res, type_ctes) in enumerate(cap.calls):
         if len(units) == len(cap.calls):
             server = [units[k]]
         else:
@@ -1748,15 +1834,18 @@ def compile_one(envm, cap: Capture, codegen, schema, text, tree_path=None):
         tp = None
         if tree_path is not None:
             tp = tree_path if k == 0 else tree_path.replace('.json.gz', f'.{k}.json.gz')
-        recs.append(statement_record(ir, res, server, codegen, tp))
+        recs.append(statement_record(ir, res, server, codegen, tp, type_ctes))
     rec = recs[0]
     if len(recs) > 1:
         rec['extra'] = recs[1:]
     return rec
 
 
-def statement_record(ir, res, server, codegen, tree_path):
+def statement_record(ir, res, server, codegen, tree_path, type_ctes=()):
     rec = {'server': server}
+    n_rw, rw_deps = rewrite_cte_dependencies(res.ast, type_ctes)
+    rec['rewrite_ctes'] = n_rw
+    rec['rewrite_cte_deps'] = rw_deps[:6]
     src = codegen.generate(res.ast, pretty=False)
     rec['sql'] = src.text
     if tree_path is not None:
@@ -2985,6 +3074,7 @@ def run(ctx: core.Ctx):
     qlines, qmeta = [], []
     n_det_checked = n_det_diff = 0
     n_multi_func = 0
+    n_rw2 = n_rw_dep = 0
     det_classes = collections.Counter()
     det_instances: dict = {}
     n_desc_checked = 0
@@ -3134,6 +3224,10 @@ def run(ctx: core.Ctx):
         stats.update(a['stats'])
         if a['stats'].get('from:list-with-2+-functions'):
             n_multi_func += 1
+        if a.get('rewrite_ctes', 0) >= 2:
+            n_rw2 += 1
+            if a.get('rewrite_cte_deps'):
+                n_rw_dep += 1
         if a['params_export'] != a['params_codegen']:
             ctx.fail(f'exporter-params:{key}', 'exporter and codegen disagree on the parameters printed',
                      base_detail | {'export': a['params_export'], 'codegen': a['params_codegen']},
@@ -3259,6 +3353,8 @@ def run(ctx: core.Ctx):
         'tree_node_histogram': {k: v for k, v in sorted(stats.items()) if not k.startswith('literal-expr-text')},
         'literal_expr_texts': sorted(k[18:] for k in stats if k.startswith('literal-expr-text:'))[:20],
         'trees_with_2plus_range_functions_in_one_from_list': n_multi_func,
+        'statements_with_2plus_type_rewrite_ctes': n_rw2,
+        'statements_with_dependent_type_rewrite_ctes': n_rw_dep,
         'mutants_on_real_trees': dict(mut_hist),
         'hand_cases': dict(hand_hist),
         'level1': {'alias_runs': len(alias_cases), 'argmap_cases': len(am_cases),
